@@ -56,6 +56,31 @@ def idx(t, i):
     return ('index', t, const(i))
 
 
+def successor_construction(ctx, rule):
+    """the IKE_SA that replaces this one at a rekey is built with the role of the rekey exchange (initiator of the rekey = initiator
+    of the new IKE_SA: header flag, SPI order and key directions follow from it), the peer SPI of the proposal, and the same
+    configuration and endpoints (the CHILD_SAs it inherits are addressed with them)"""
+    # successor construction: roles and peer SPI
+    for q, role, spi in ((IKESA + '.process_create_child_sa_request', False, 'request.get_payload(Payload.Type.SA, True).proposals[0].spi'),
+                         (IKESA + '.generate_rekey_ike_sa_request', True, "b''")):
+        fi = ctx.func(q)
+        S = ctx.sval(fi)
+        cs = S.calls_to(callee='new ikesa.IkeSa')
+        ok = len(cs) == 1
+        found = None
+        if ok:
+            b = cs[0].args
+            found = {k: tq.text(v, 120) for k, v in b.items()}
+            ok = b.get('is_initiator') == const(role) and b.get('peer_spi') is not None \
+                and tq.match(S.expr(spi), b['peer_spi']) is not None \
+                and [b.get(k) for k in ('configuration', 'my_addr', 'peer_addr')] == [attr(P('self'), k) for k in (
+                    'configuration', 'my_addr', 'peer_addr')]
+        ctx.check(ok, rule, '%s: the successor IKE_SA has role is_initiator=%s, peer SPI %s and the same endpoints' % (
+            fi.name, role, 'of the peer\'s proposal' if not role else "b'' (not yet known)"),
+            key=(rule, q, 'successor'), site=ctx.site(fi, fi.node), detail={'found': found})
+
+
+
 def run(ctx):
     prog = ctx.prog
 
@@ -213,24 +238,7 @@ def run(ctx):
                           tq.match(S.expr('self.request.get_payload(Payload.Type.NONCE).nonce'), b.get('nonce', NONE)) is not None, 'O3',
                           '%s: Ni is the nonce of our own outstanding request' % fi.name, key=('O3', q, 'nonce'), site=ctx.site(fi, c.node),
                           detail={'found': tq.text(b['nonce']) if 'nonce' in b else None})
-    # successor construction: roles and peer SPI
-    for q, role, spi in ((IKESA + '.process_create_child_sa_request', False, 'request.get_payload(Payload.Type.SA, True).proposals[0].spi'),
-                         (IKESA + '.generate_rekey_ike_sa_request', True, "b''")):
-        fi = ctx.func(q)
-        S = ctx.sval(fi)
-        cs = S.calls_to(callee='new ikesa.IkeSa')
-        ok = len(cs) == 1
-        found = None
-        if ok:
-            b = cs[0].args
-            found = {k: tq.text(v, 120) for k, v in b.items()}
-            ok = b.get('is_initiator') == const(role) and b.get('peer_spi') is not None \
-                and tq.match(S.expr(spi), b['peer_spi']) is not None \
-                and [b.get(k) for k in ('configuration', 'my_addr', 'peer_addr')] == [attr(P('self'), k) for k in (
-                    'configuration', 'my_addr', 'peer_addr')]
-        ctx.check(ok, 'O3', '%s: the successor IKE_SA has role is_initiator=%s, peer SPI %s and the same endpoints' % (
-            fi.name, role, 'of the peer\'s proposal' if not role else "b'' (not yet known)"),
-            key=('O3', q, 'successor'), site=ctx.site(fi, fi.node), detail={'found': found})
+    successor_construction(ctx, 'O3')
 
     # ---------------------------------------------------------------- O4
     gc = ctx.func(IKESA + '.generate_child_sa_key_material')
